@@ -2,6 +2,9 @@ import DimodProofs.BqmErr
 import DimodProofs.Counts
 import DimodProofs.NoUB
 import DimodProofs.CppWF
+import DimodProofs.CppMore
+import DimodProofs.NoUB2
+import DimodProofs.CqmInv
 
 /-! # C20 — no call sequence corrupts the native data structures
 
@@ -36,10 +39,8 @@ theorem wf_preserved_index_level {n : Nat} {adj : AdjT} {l : Nat → Bool} (h : 
     BinaryQuadraticModel / QuadraticModel, the one diffed against the sanitizer-instrumented interpreter): for indices
     `< num_variables()`: add_linear / set_linear, add_quadratic / set_quadratic (self-loop on INTEGER/REAL, linear or
     offset on BINARY/SPIN, `domain_error` unchanged), remove_interaction (pair or self-loop), remove_variable,
-    fix_variable, scale, substitute_variables, clear; for a BQM also add_variable, resize(k) for any k, change_vartype.
-    Gap (hence `_partial`): remove_variables (bulk), substitute_variable, dense / COO construction, QM::resize with
-    bounds and the Expression / CQM layer have no invariant proof here (sanitizer + correspondence only). -/
-theorem cpp_wf_preserved_partial (m : CppM) (h : m.WF) :
+    fix_variable, scale, substitute_variables, clear; for a BQM also add_variable, resize(k) for any k, change_vartype. -/
+theorem cpp_wf_preserved (m : CppM) (h : m.WF) :
     (∀ i f, (m.withLin (Bqm.modifyAt · i f)).WF) ∧
     (∀ u v b set, u < m.q.lin.length → v < m.q.lin.length → (m.quad u v b set).1.WF) ∧
     (∀ u v, u < m.q.lin.length → v < m.q.lin.length → (m.removeInteraction u v).1.WF) ∧
@@ -52,6 +53,43 @@ theorem cpp_wf_preserved_partial (m : CppM) (h : m.WF) :
    fun u v hu hv => h.removeInteraction u v hu hv, fun v hv => h.removeAt v hv, fun v a hv => h.fix v a hv,
    fun s => h.scale s, fun a c => h.substituteAll a c, h.clear,
    fun t ht => ⟨h.addVar_bqm t ht, fun k => h.baseResize_bqm k t ht, fun t' ht' => h.changeVartype_bqm t' t ht ht'⟩⟩
+
+/-- … and the rest of the header API of the two model classes:
+    * `remove_variables(vs)` for distinct indices `< num_variables()` (the model removes them from the largest down);
+    * `substitute_variable(v, mult, c)` as coded, the self-loop branch (fix of D4) included;
+    * `QuadraticModel::resize(k)`, `k ≤ num_variables()`, with the variable info truncated alongside;
+    * `add_quadratic_from_dense(dense, k)` for `k ≤ num_variables()`;
+    * the iterator `add_quadratic(rows, cols, biases)`: a BQM grows to the largest index first, for a QM the indices have
+      to be `< num_variables()`. -/
+theorem cpp_wf_preserved_more (m : CppM) (h : m.WF) :
+    (∀ vs : List Nat, vs.Nodup → (∀ v ∈ vs, v < m.q.lin.length) → (m.removeMany vs).WF) ∧
+    (∀ v mult c, v < m.q.lin.length → (m.substituteVariable v mult c).WF) ∧
+    (∀ k, m.bvt = none → k ≤ m.q.lin.length → (m.resize k).1.WF) ∧
+    (∀ k d, k ≤ m.q.lin.length → (m.addDense k d).WF) ∧
+    (∀ rows cols vals, cols.length = rows.length → (m.bvt = none → ∀ x ∈ rows ++ cols, x < m.q.lin.length) →
+      (m.addCoo rows cols vals).WF) :=
+  ⟨fun vs hn hb => h.removeMany vs hn hb, fun v mult c hv => h.substituteVariable v mult c hv,
+   fun k hb hk => h.resize_qm k hb hk, fun k d hk => h.addDense k d hk,
+   fun rows cols vals hl hq => h.addCoo rows cols vals hl hq⟩
+
+/-- **the Expression layer** (`dimod::Expression`: `variables_`, `indices_`, and a `QuadraticModelBase` over local
+    indices), model `DimodModel/Cqm.lean` (`Expr`, owned by C05 and tied to the code there): the invariant `ExprWF` —
+    `variables_` duplicate-free, `indices_` the inverse of `variables_`, linear biases and adjacency as long as
+    `variables_`, **every stored neighbour index `< variables_.size()`** — is preserved by `enforce_variable`, add / set
+    linear, `add_quadratic`, `remove_interaction`, `remove_variable` (with its re-indexing) and `substitute_variable`.
+    Gap (hence `_partial`): the interpreter's Expression / Constraint / CQM slots are compared structurally and under
+    the sanitizers, not against this Lean model; constraint management (`add_constraint`, `remove_constraint`, the
+    move / copy / swap paths, `fix_variable` on a CQM) has no invariant theorem here. -/
+theorem expression_wf_preserved_partial (e : Expr) (h : CqmP.ExprWF e) :
+    (∀ g, CqmP.ExprWF (e.enforce g).1 ∧ (e.enforce g).2 < (e.enforce g).1.vars.length) ∧
+    (∀ g b, CqmP.ExprWF (e.addLinear g b)) ∧ (∀ g b, CqmP.ExprWF (e.setLinear g b)) ∧
+    (∀ vt gu gv b, CqmP.ExprWF (e.addQuadratic vt gu gv b)) ∧
+    (∀ gu gv, CqmP.ExprWF (e.removeInteraction gu gv)) ∧
+    (∀ g, CqmP.ExprWF (e.removeVar g)) ∧
+    (∀ g m c, CqmP.ExprWF (e.substitute g m c)) :=
+  ⟨fun g => ⟨CqmP.enforce_wf h g, CqmP.enforce_lt h g⟩, fun g b => CqmP.addLinear_wf h g b, fun g b => CqmP.setLinear_wf h g b,
+   fun vt gu gv b => CqmP.addQuadratic_wf h vt gu gv b, fun gu gv => CqmP.removeInteraction_wf h gu gv,
+   fun g => CqmP.removeVar_wf h g, fun g m c => CqmP.substitute_wf h g m c⟩
 
 /-- **counts are consistent**: `num_interactions()` as the header computes it ((Σ row sizes + #self-loops) / 2)
     is the number of unordered pairs carrying an interaction (self-loops once), and `degree(v)` is the number of
@@ -74,11 +112,34 @@ theorem no_ub_within_preconditions (m : CppM) {l : Nat → Bool} (h : AdjWF m.q.
   ⟨fun u v b set hu hv => CppM.quad?_eq m h u v b set hu hv, fun u v hu hv => CppM.removeInteraction?_eq m h u v hu hv,
    fun v a hv => CppM.fix?_eq m h v a hv, fun x hx => CppM.energy?_eq m h x hx⟩
 
-/-- gap of `no_ub_within_preconditions`: `remove_variable(s)`, `resize`, `substitute_variable(s)`, dense/COO
-    construction and the Expression / CQM layer are covered by the sanitizer runs and the `CppM` correspondence
-    only; they have no checked-indexing proof yet. -/
-theorem no_ub_partial (m : CppM) {l : Nat → Bool} (h : AdjWF m.q.lin.length m.q.adj l) (v : Nat) (a : Rat)
-    (hv : v < m.q.lin.length) : m.fix? v a = some (m.fix v a) := CppM.fix?_eq m h v a hv
+/-- … and for the rest of the two model classes (every vector access of the header modelled as a checked lookup,
+    `DimodModel/Checked.lean`):
+    * `remove_variable(v)`, `v < num_variables()`: the `erase(begin + v)` of each vector;
+    * `remove_variables(vs)`: every `reindex[·]` lookup of the re-indexing scheme — for the indices given and for
+      **every neighbour index stored in the structure** — is inside the vector;
+    * `substitute_variable(v, mult, c)`: `linear_biases_[v]`, `(*adj_ptr_)[v]`, and per neighbour `linear_biases_[term.v]`,
+      `asymmetric_quadratic_ref(term.v, v)`;
+    * `substitute_variables`: the loops over `v < num_variables()` index both vectors in range (they are equally long);
+    * dense / COO construction: every `add_quadratic` of the loops;
+    * `resize` performs no `operator[]` (`vector::resize`, `erase(lower_bound(..), end())`), nothing to check. -/
+theorem no_ub_more (m : CppM) (h : m.WF) :
+    (∀ v, v < m.q.lin.length → m.removeAt? v = some (m.removeAt v)) ∧
+    (∀ vs : List Nat, (∀ v ∈ vs, v < m.q.lin.length) → (m.reindexLookups? vs).isSome) ∧
+    (∀ v mult c, v < m.q.lin.length → m.substituteVariable? v mult c = some (m.substituteVariable v mult c)) ∧
+    m.substituteAllLookups?.isSome ∧
+    (∀ k d, k ≤ m.q.lin.length → m.addDense? k d = some (m.addDense k d)) ∧
+    (∀ rows cols vals, cols.length = rows.length → (m.bvt = none → ∀ x ∈ rows ++ cols, x < m.q.lin.length) →
+      m.addCoo? rows cols vals = some (m.addCoo rows cols vals)) :=
+  ⟨fun v hv => CppM.removeAt?_eq m h v hv, fun vs hb => CppM.reindexLookups_ok m h vs hb,
+   fun v mult c hv => CppM.substituteVariable?_eq m h v mult c hv, CppM.substituteAllLookups_ok m h,
+   fun k d hk => CppM.addDense?_eq m h k d hk, fun rows cols vals hl hq => CppM.addCoo?_eq m h rows cols vals hl hq⟩
+
+/-- gap of `no_ub_within_preconditions` / `no_ub_more`: the Expression / Constraint / CQM layer has no
+    checked-indexing model (its invariant `ExprWF` says the stored indices are in range, `expression_wf_preserved_partial`;
+    the accesses themselves are covered by the sanitizer runs only); `remove_variables` is checked for its lookups, not
+    shown equal to the model's one-by-one removal (that equality is observed by the correspondence run). -/
+theorem no_ub_partial (m : CppM) (h : m.WF) (vs : List Nat) (hb : ∀ v ∈ vs, v < m.q.lin.length) :
+    (m.reindexLookups? vs).isSome := CppM.reindexLookups_ok m h vs hb
 
 /-- **the Python boundary rejects before it changes anything**: a call with an argument outside the label /
     number alphabet, a `None` label, a self-loop — and every other raising single-term call — returns the model
